@@ -76,3 +76,32 @@ pub enum DeadChain {
     #[regex(r"[0-9]+")]
     Num,
 }
+
+/// Every pattern of the definitions in this module ends in a look-ahead assertion, so a match is only confirmed by the
+/// byte after it (or the end of input): no state may record a match *before* having read that byte (rule G16).
+pub mod expect_late {
+    use logos::Logos;
+    #[derive(Logos, Debug, PartialEq)]
+    #[logos(utf8 = false)]
+    pub enum Keyword {
+        #[regex(r"let(?-u:\b)")]
+        Let,
+    }
+    #[derive(Logos, Debug, PartialEq)]
+    #[logos(utf8 = false)]
+    pub enum Keywords {
+        #[regex(r"if(?-u:\b)")]
+        If,
+        #[regex(r"in(?-u:\b)")]
+        In,
+        #[regex(r"[0-9]+(?-u:\b)", priority = 1)]
+        Num,
+    }
+    #[derive(Logos, Debug, PartialEq)]
+    pub enum LineEnd {
+        #[regex(r"(?m)[a-z]+$")]
+        LastWord,
+        #[regex(r"(?m);$", priority = 9)]
+        LastSemi,
+    }
+}
